@@ -57,10 +57,11 @@ class FuzzyFinder(object):
         return self._output_query_results()
 
     def _validate_find_input_attributes(self, graph, q_str, q_params, q_parser):
-        if not graph and not self.graph:
+        # An rdflib graph without triples is False: only a missing graph is refused.
+        if graph is None and self.graph is None:
             raise ValueError("Please provide a RDF graph")
 
-        if not self.graph:
+        if self.graph is None:
             self.graph = graph
 
         if q_str and q_params:
